@@ -243,61 +243,72 @@ def validate_random(out, d, seed, n_prog, n_ops, n_variants):
             q["meter"] = meter
             progs.append(q)
     obs = run_driver_programs(progs, d, "rand1")
-    # the ndjson trace: header, then per program a Reset event and one event per executed operation
-    stacks, ukeys, events, index = [], [], [], []
+    # the ndjson trace: header, then per program a Reset event and one event per executed operation.
+    # Validated in batches: the key universe of a TLC run is the union over its programs, and every map of the
+    # specification ranges over it, so small batches keep the cost per event low.
     def nocap(stack):
         return [{"t": l["t"], "p": l["p"]} for l in stack]
-    for p in progs:
-        if nocap(p["stack"]) not in stacks:
-            stacks.append(nocap(p["stack"]))
-    allkeys = sorted({tuple(k) for p in progs for k in p["keys"]})
-    basekeys = sorted({tuple(kv[0]) for p in progs for kv in p["init"]} |
-                      {tuple(sum([l["p"] for l in reversed(p["stack"]) if l["t"] == "prefix"], []) + list(k))
-                       for p in progs for k in p["keys"]})
-    events.append({"op": "Header", "stacks": stacks, "userkeys": [list(k) for k in allkeys], "basekeys": [list(k) for k in basekeys]})
-    index.append(None)
-    for p, r in zip(progs, obs):
-        events.append({"op": "Reset", "k": [], "v": [], "st": [], "en": [], "asc": True, "stack": nocap(p["stack"]), "meter": p["meter"],
-                       "init": p["init"], "o": {"r": "ok", "gas": 0, "pan": "", "tr": []}, "b": p["init"]})
-        index.append((p, -1))
-        for j, o in enumerate(r["obs"]):
-            e = dict(p["ops"][j])
-            e.update(stack=[], meter=p["meter"], init=[], o={"r": o["r"], "gas": o["gas"], "pan": o["pan"], "tr": o["tr"]}, b=o["b"])
-            events.append(e)
-            index.append((p, j))
-    trace = "\n".join(json.dumps(e) for e in events) + "\n"
-    res = common.run_tlc("Trace_KVWrappers", "Trace_KVWrappers.cfg", d, workers=1, timeout=1500,
-                         files={"wtrace.ndjson": trace}, deadlock=False)
-    if res.error:
-        raise common.ToolError("trace validation: TLC error: %s\n%s" % (res.error, res.out[-2500:]))
-    done = re.findall(r'<<"DONE", (\d+)>>', res.out)
-    stuck = re.findall(r'<<"STUCK", (\d+)', res.out)
-    if stuck or not done or int(done[-1]) != len(events):
-        raise common.ToolError("trace validation did not consume the trace: stuck=%s done=%s of %d\n%s"
-                               % (stuck[:3], done[-1:], len(events), res.out[-1500:]))
-    out.add_tlc(res, "trace validation of %d random programs (%d with gas limits / overflow rooms around the cumulative costs), %d events"
-                % (len(progs), len(progs) - len(base_progs), len(events)))
+    pairs = list(zip(progs, obs))
+    n_events = 0
     seen = set()
-    for m in re.finditer(r'<<"MISMATCH", (\d+), "(\w+)", "((?:[^"\\]|\\.)*)", "((?:[^"\\]|\\.)*)">>', res.out):
-        line, field = int(m.group(1)), m.group(2)
-        p, j = index[line - 1]
-        want = json.loads(json.loads('"%s"' % m.group(3)))
-        got = json.loads(json.loads('"%s"' % m.group(4)))
-        if p["id"] in seen:
-            continue
-        if p["ops"][j]["op"] == "CacheWrap":
-            out.notes.setdefault("nonconformance_cachewrap", []).append(
-                {"program": p["id"], "stack": stack_name(p["stack"]), "field": field, "expected": want, "observed": got})
-            continue
-        if field.endswith("_after_panic"):
-            out.notes.setdefault("nonconformance_after_panic", [])
-            if len(out.notes["nonconformance_after_panic"]) < 5:
-                out.notes["nonconformance_after_panic"].append({"program": p["id"], "step": j, "field": field, "expected": want, "observed": got})
-            continue
-        seen.add(p["id"])
-        q = dict(p)
-        q["ops"] = [dict(o, op="IterNext") if o["op"] == "IterNextIfValid" else o for o in p["ops"]]
-        report(out, q, j, field, want, got, "random program")
+    for b0 in range(0, len(pairs), 40):
+        batch = pairs[b0:b0 + 40]
+        stacks, events, index = [], [], []
+        for p, r in batch:
+            if nocap(p["stack"]) not in stacks:
+                stacks.append(nocap(p["stack"]))
+        allkeys = sorted({tuple(k) for p, r in batch for k in p["keys"]})
+        basekeys = sorted({tuple(kv[0]) for p, r in batch for kv in p["init"]} |
+                          {tuple(sum([l["p"] for l in reversed(p["stack"]) if l["t"] == "prefix"], []) + list(k))
+                           for p, r in batch for k in p["keys"]})
+        events.append({"op": "Header", "stacks": stacks, "userkeys": [list(k) for k in allkeys], "basekeys": [list(k) for k in basekeys]})
+        index.append(None)
+        for p, r in batch:
+            events.append({"op": "Reset", "k": [], "v": [], "st": [], "en": [], "asc": True, "stack": nocap(p["stack"]), "meter": p["meter"],
+                           "init": p["init"], "o": {"r": "ok", "gas": 0, "pan": "", "tr": []}, "b": p["init"]})
+            index.append((p, -1))
+            for j, o in enumerate(r["obs"]):
+                e = dict(p["ops"][j])
+                e.update(stack=[], meter=p["meter"], init=[], o={"r": o["r"], "gas": o["gas"], "pan": o["pan"], "tr": o["tr"]}, b=o["b"])
+                events.append(e)
+                index.append((p, j))
+        trace = "\n".join(json.dumps(e) for e in events) + "\n"
+        res = common.run_tlc("Trace_KVWrappers", "Trace_KVWrappers.cfg", d, workers=1, timeout=900,
+                             files={"wtrace.ndjson": trace}, deadlock=False)
+        if res.error:
+            raise common.ToolError("trace validation: TLC error: %s\n%s" % (res.error, res.out[-2500:]))
+        done = re.findall(r'<<"DONE", (\d+)>>', res.out)
+        stuck = re.findall(r'<<"STUCK", (\d+)', res.out)
+        if stuck or not done or int(done[-1]) != len(events):
+            raise common.ToolError("trace validation did not consume the trace: stuck=%s done=%s of %d\n%s"
+                                   % (stuck[:3], done[-1:], len(events), res.out[-1500:]))
+        n_events += len(events)
+        out.cov["states"] += res.distinct
+        out.cov["transitions"] += res.generated
+        for m in re.finditer(r'<<"MISMATCH", (\d+), "(\w+)", "((?:[^"\\]|\\.)*)", "((?:[^"\\]|\\.)*)">>', res.out):
+            line, field = int(m.group(1)), m.group(2)
+            p, j = index[line - 1]
+            want = json.loads(json.loads('"%s"' % m.group(3)))
+            got = json.loads(json.loads('"%s"' % m.group(4)))
+            if p["id"] in seen:
+                continue
+            if p["ops"][j]["op"] == "CacheWrap":
+                out.notes.setdefault("nonconformance_cachewrap", []).append(
+                    {"program": p["id"], "stack": stack_name(p["stack"]), "field": field, "expected": want, "observed": got})
+                continue
+            if field.endswith("_after_panic"):
+                out.notes.setdefault("nonconformance_after_panic", [])
+                if len(out.notes["nonconformance_after_panic"]) < 5:
+                    out.notes["nonconformance_after_panic"].append({"program": p["id"], "step": j, "field": field, "expected": want, "observed": got})
+                continue
+            seen.add(p["id"])
+            q = dict(p)
+            q["ops"] = [dict(o, op="IterNext") if o["op"] == "IterNextIfValid" else o for o in p["ops"]]
+            report(out, q, j, field, want, got, "random program")
+    out.notes.setdefault("tlc_runs", []).append(
+        {"label": "trace validation of %d random programs (%d with gas limits / overflow rooms around the cumulative costs), "
+                  "%d events in %d batches" % (len(progs), len(progs) - len(base_progs), n_events, (len(pairs) + 39) // 40),
+         "distinct": n_events, "generated": n_events})
     out.cov["traces_validated_against_impl"] += len(progs)
     out.notes["random_trace_validation"] = {"programs": len(progs), "base_programs": len(base_progs), "ops_each": n_ops,
                                             "stacks": sorted({stack_name(p["stack"]) for p in progs})}
@@ -306,8 +317,8 @@ def validate_random(out, d, seed, n_prog, n_ops, n_variants):
 SIZES = {
     "quick": dict(cfgs=["MC_KVWrappers_q.cfg", "MC_KVWrappers_qgas.cfg"], sim_num=120, sim_depth=25,
                   rand_prog=60, rand_ops=25, rand_var=3),
-    "thorough": dict(cfgs=["MC_KVWrappers_prefix.cfg", "MC_KVWrappers_gas.cfg", "MC_KVWrappers_mixed.cfg"], sim_num=1500, sim_depth=30,
-                     rand_prog=800, rand_ops=40, rand_var=5),
+    "thorough": dict(cfgs=["MC_KVWrappers_prefix.cfg", "MC_KVWrappers_prefixit.cfg", "MC_KVWrappers_gas.cfg", "MC_KVWrappers_mixed.cfg"],
+                     sim_num=600, sim_depth=30, rand_prog=400, rand_ops=30, rand_var=3),
 }
 
 
